@@ -82,7 +82,7 @@ def run(tier, replay):
     wd = lib.workdir(PID)
     lib.build("store")
     mc, hit = model_check(PID)
-    extra = ["--histories", 8 if tier == "quick" else 60, "--len", 25 if tier == "quick" else 120, "--restore-pct", 3]
+    extra = ["--histories", 8 if tier == "quick" else 30, "--len", 25 if tier == "quick" else 80, "--restore-pct", 3]
     obs, tv, lines, recs = drive(PID, tier, replay, wd, extra)
     for t in tv["l1fail"]:
         if t[1] != PID:
